@@ -79,6 +79,9 @@ func init() { register("syntax", syntaxMain) }
 
 var lineRe = regexp.MustCompile(`(?i)line\s+(\d+)`)
 
+// a context line of an error message: "<n> |<tab>text"
+var ctxRe = regexp.MustCompile(`(?m)^[ \t]*(\d+)[ \t]*\|[ \t]?(.*)$`)
+
 func hx(s string) string { return hex.EncodeToString([]byte(s)) }
 
 func bytesOf(s string) []int {
@@ -100,7 +103,14 @@ func mkErr(input, msg string) synErr {
 		e.Lines = append(e.Lines, n)
 		q := false
 		if n >= 1 && n <= len(lines) {
-			q = strings.Contains(msg, strings.TrimSpace(lines[n-1]))
+			want := strings.TrimSpace(lines[n-1])
+			q = strings.Contains(msg, want)
+			// where the message shows a numbered context line for n, that line's text has to be the input's line n
+			for _, c := range ctxRe.FindAllStringSubmatch(msg, -1) {
+				if c[1] == m[1] && strings.TrimSpace(c[2]) != want {
+					q = false
+				}
+			}
 		}
 		e.Quotes = append(e.Quotes, q)
 	}
